@@ -256,7 +256,15 @@ def check(db, rep):
     r1 = rep.rule('r1', 'SPELLING: Token::Str(id, syntax), trimmed, lexes in that syntax as exactly one token of that id', 100)
     for syn in ('MATH', 'ASCII'):
         dfa = M.dfa[syn]
-        fixed = sorted(set(dfa.rule_token.values()) - {'INTERRUPT', 'ID_LOCAL', 'ID_GLOBAL', 'ID_FUNCTION', 'ID_PREDICATE', 'ID_RADICAL', 'LIT_INTEGER', 'BIGPR', 'SMALLPR', 'FILTER', 'END'})
+        # every terminal of the grammar (independent of the lexers) except the parametrised ones
+        from rules.C06 import ALIAS
+        rev = {v: k for k, v in ALIAS.items()}
+        terminals = [rev.get(n, n) for n in M.lr.tname[3:M.lr.ntokens]]
+        fixed = sorted(set(terminals) - {'ID_LOCAL', 'ID_GLOBAL', 'ID_FUNCTION', 'ID_PREDICATE', 'ID_RADICAL', 'LIT_INTEGER', 'BIGPR', 'SMALLPR', 'FILTER'})
+        unknown = [t for t in fixed if t not in tokid]
+        if unknown:
+            r1.broken('grammar terminals %s have no TokenID of that name' % unknown)
+            return
         rep.note('fixed_spelling_tokens_' + syn, len(fixed))
         for name in fixed:
             try:
